@@ -774,6 +774,7 @@ func main() {
 			runBool(ctx)
 			runFloat(ctx)
 		},
-		Replay: replay,
+		Replay:           replay,
+		CrashIsViolation: true, // a worker process that dies while it executes a case on the library is a verdict on that case
 	})
 }
